@@ -53,7 +53,7 @@ class _Rec:
     """the real DiffieHellman object of a concrete world, remembering which peer value it was combined with"""
 
     def __init__(self, real):
-        self._r, self.peer = real, None
+        self._r, self.peer, self.secrets = real, None, {}
         REAL_REG.append(self)
 
     def __getattr__(self, name):
@@ -61,7 +61,9 @@ class _Rec:
 
     def compute_secret(self, peer_public_key):
         self.peer = bytes(peer_public_key)
-        return self._r.compute_secret(peer_public_key)
+        r = self._r.compute_secret(peer_public_key)
+        self.secrets[self.peer] = bytes(self._r.shared_secret)      # every combination this key pair was ever used in (an object may be reused)
+        return r
 
 
 def shared_from_wire(ke_a, ke_b):
@@ -71,8 +73,9 @@ def shared_from_wire(ke_a, ke_b):
         # concrete world: the real library's secret of the key pair that owns ke_a, combined with ke_b (or the other way round)
         ka, kb = bytes(ke_a), bytes(ke_b)
         for o in REAL_REG:
-            if (bytes(o.public_key), o.peer) in ((ka, kb), (kb, ka)):
-                return o.shared_secret
+            for mine, other in ((ka, kb), (kb, ka)):
+                if bytes(o.public_key) == mine and other in o.secrets:
+                    return o.secrets[other]
         raise LookupError('no Diffie-Hellman object exchanged these two public values')
     objs = []
     for ke in (ke_a, ke_b):
